@@ -585,7 +585,7 @@ Proof.
   pose proof (generate_phase (refresh hd vector) (refresh hd mgr) (refresh hd d) pre (List.length modules) up down fr Gv') as GP.
   rewrite Hc', Hw' in GP.
   specialize (GP ltac:(unfold refresh at 1, Refresh_asmgr; cbn [am_vector]; now rewrite Hv) Hu Hd Hf Hrel' Hlen).
-  rewrite <- Eraw in GP.
+  rewrite <- Eraw, Hmodel in GP.
   destruct (AssemblyManager_generate_assembly (S (S (List.length modules))) (refresh hd mgr) (refresh hd d)) as [[p ws]|e] eqn:Eg.
   - cbn [outcome_of] in GP. inversion GP; subst.
     exists p, ws, mgr. repeat split; auto. eapply generate_norefs; eassumption.
@@ -615,4 +615,69 @@ Proof.
   { induction H as [|x fs Hx HF IH]; cbn [py_mapM]; [reflexivity|].
     unfold deref_feature at 1. rewrite Hx, IH. reflexivity. }
   rewrite E. cbn. now rewrite rec_set_features_same.
+Qed.
+
+(* ---------- the product record at the entry point (C08) ---------------------------------------------- *)
+
+From MV Require Import Annot AnnotPipeline.
+
+Lemma dict_values_refresh hd (d : list (pyrecord * entity)) : dict_values (refresh hd d) = refresh hd (dict_values d).
+Proof.
+  unfold dict_values, refresh, Refresh_list, Refresh_value. rewrite !map_map. reflexivity.
+Qed.
+
+(* when the citations dereference and the model yields a product, vector.assemble(...) as regenerated
+   returns ref_record (annotated ...) of a record p whose sequence and ordered feature table are
+   Annot.product of the fragments of the consumed modules, in chain order, then the vector's —
+   the inputs being read as they are once dereferenced (refresh hd) *)
+Theorem run_assemble_records vector m ms kw hd :
+  good_ent vector -> Forall good_ent (m :: ms) ->
+  map ent_id (m :: ms) = seq 0 (List.length (m :: ms)) -> ent_id vector = List.length (m :: ms) ->
+  deref_elems ((m :: ms) ++ [vector]) [] (heap_of (vector :: m :: ms)) = Ok hd ->
+  match assemble_raw (ent_cls vector) (ent_seq_w vector) (map raw_of (m :: ms)) with
+  | Product w used unused =>
+    exists p ws mgr usedE,
+      fst (run_assemble (S (S (List.length (m :: ms)))) vector (m :: ms) kw)
+      = Ok (ref_record (annotated mgr (pr_id (ent_record vector)) (map (fun x => pr_id (ent_record x)) (m :: ms)) p), ws)
+      /\ map ent_id usedE = used /\ incl usedE (refresh hd (m :: ms))
+      /\ pr_kind p = KCircularRecord
+      /\ same_sf (to_record p) (product (map frag_rec (usedE ++ [refresh hd vector])))
+  | _ => True
+  end.
+Proof.
+  intros Gv Gm Hids Hvid Ede.
+  set (modules := m :: ms) in *.
+  assert (Hnd : NoDup (map ent_id (vector :: modules))).
+  { cbn [map]. rewrite Hids, Hvid. constructor; [intros H; apply in_seq in H; lia|apply seq_NoDup]. }
+  pose proof (run_assemble_eq (S (S (List.length modules))) vector m ms kw Hnd) as RE. cbv zeta in RE.
+  fold modules in RE.
+  pose proof (modmap_phase vector modules (kw_id kw) (kw_name kw) Gv Gm Hids) as M1.
+  assert (Hget : forall e, In e (vector :: modules) -> heap_get (heap_of (vector :: modules)) (ent_id e) = Some (ent_record e))
+    by (apply heap_of_get; exact Hnd).
+  destruct (assemble_raw (ent_cls vector) (ent_seq_w vector) (map raw_of modules)) as [w used unused| | | |] eqn:Eraw0; try exact I.
+  destruct (AssemblyManager_init tt vector modules (kw_id kw) (kw_name kw)) as [mgr|e] eqn:Ei; cbn [bind] in *.
+  2:{ destruct e; try discriminate. destruct o; discriminate. }
+  destruct (AssemblyManager_generate_modules_map mgr) as [d|e] eqn:Emap; cbn [bind] in *.
+  2:{ destruct e; try discriminate. destruct o; discriminate. }
+  destruct M1 as (up & down & fr & pre & Hv & Hmods & _ & Hid & Hname & Hu & Hd & Hf & Hrel & Hlen & Eraw).
+  rewrite Ede in RE.
+  pose proof (deref_elems_shape _ _ _ _ Ede) as Rd.
+  destruct (refresh_entity_shape _ hd vector Rd (Hget vector (or_introl eq_refl))) as (Hi' & Hc' & Hs').
+  destruct (good_shape vector _ Hi' Hc' Hs' Gv) as (Gv' & _ & Hw').
+  assert (Hrel' : dict_rel (refresh hd d) pre).
+  { apply (dict_rel_refresh (heap_of (vector :: modules)) hd d pre Rd); [|exact Hrel].
+    intros ke Hke. apply Hget. right. rewrite <- Hmods. apply (modmap_values_incl mgr d Emap).
+    unfold dict_values. now apply in_map. }
+  pose proof (generate_phase_records (refresh hd vector) (refresh hd mgr) (refresh hd d) pre (List.length pre) up down fr Gv') as GP.
+  rewrite Hc', Hw' in GP.
+  specialize (GP ltac:(unfold refresh at 1, Refresh_asmgr; cbn [am_vector]; now rewrite Hv) Hu Hd Hf Hrel' eq_refl).
+  rewrite <- Hlen in RE.
+  destruct (dwalk (S (List.length pre)) (okey up) (okey down) pre []) as [u rest|o|]; cbn [finish] in Eraw; try discriminate.
+  inversion Eraw; subst w used unused.
+  destruct GP as (p & ws & uE & Eg & Hids_u & Hi & Kp & Hprod).
+  rewrite Eg in RE.
+  exists p, ws, mgr, uE. split; [rewrite <- Hlen; exact RE|]. split; [exact Hids_u|]. split; [|split; [exact Kp|exact Hprod]].
+  intros x Hx. specialize (Hi x Hx). rewrite dict_values_refresh in Hi.
+  unfold refresh, Refresh_list in *. apply in_map_iff in Hi. destruct Hi as (y & <- & Hy).
+  apply in_map. rewrite <- Hmods. exact (modmap_values_incl mgr d Emap y Hy).
 Qed.
